@@ -866,7 +866,8 @@ class C24(HexCaseProp):
             if kind != 'VIOL':
                 continue
             cls = f[0]
-            if cls == 'seg-dependent:kind:err-vs-ok' and ref_dechunk(data, self._relaxed)[0] == 'bad' and ref_dechunk(data, self._relaxed, True)[0] == 'ok':
+            if cls in ('seg-dependent:kind:err-vs-ok', 'seg-dependent:kind:err-vs-more') and ref_dechunk(data, self._relaxed)[0] == 'bad' and \
+                    ref_dechunk(data, self._relaxed, True)[0] in ('ok', 'more'):
                 cls = 'seg-dependent:bws-between-chunk-ext-and-CRLF'
             out.append(Violation('%s:%s' % (self.id, cls), 'case %s input=%s %s' % (case['id'], self.describe_case(case), ' '.join(f[1:])[:700])))
         return out
